@@ -12,6 +12,8 @@ def gen_pipeline_scenario(seed, level_choices=("vbs",), nmax=12, storage="sim"):
     blocked = kn.random() < 0.6
     scn = {"kind": "vbs_pipeline", "level": level, "blocked": blocked, "storage": storage,
            "reader": "class"}
+    if not blocked and kn.random() < 0.5:
+        scn["omit_kwargs"] = True     # constructors / functions called the default way, without options
     if level == "vbs":
         maxlen = workload.pick_knob(kn)
         scn["knobs"] = {"MAX_VBS_RECORD_LENGTH": maxlen}
